@@ -49,6 +49,13 @@ def family(maxn, tiers, checks, tag, timeout):
 OBLIGATIONS = [TR("accessors", "OP_ACCESSORS", 2, ("quick", "thorough"), replace_calls=[], timeout=300)]
 # quick: every red-black shape with <= 3 nodes, semantic oracle only (independent walk, ledger, pool liveness)
 OBLIGATIONS += family(3, ("quick",), [], "q", 600)
+# quick also: iteration on every shape with <= 6 nodes (cheap) and removal on the 4- and 5-node shapes (first sizes with a red sibling / black nephews)
+for o_ in family(6, ("quick",), [], "t", 900):
+    if o_.name.startswith("tree.iter."):
+        o_.name = o_.name.replace(".t", ".qi"); OBLIGATIONS.append(o_)
+for o_ in family(5, ("quick",), [], "five", 900):
+    if o_.name.startswith("tree.rem.") and count(all_shapes(5)[int(o_.name.split(".five")[1])]) >= 4:
+        OBLIGATIONS.append(o_)
 # thorough: every shape with <= 6 nodes (34 shapes); cbmc pointer/bounds checks on the <= 4-node shapes
 OBLIGATIONS += family(6, ("thorough",), [], "t", 1800)
 OBLIGATIONS += family(4, ("thorough",), ["bounds", "pointer"], "m", 1800)
